@@ -41,7 +41,7 @@ R = {
  "C18-m3": ("caught", "crash:github.com/zen-eth/shisui/portalwire.(*tableRevalidation).handleResponse", "quick tier as built; since then the model also decides stale liveness answers exactly (entry identity through a hook) and histories delete and re-add an entry while its check is in flight."),
  "C18-m4": ("caught", "policy:track-ok:entry-removed, policy:track-ok:record-changed, policy:track-ok:credit", "quick tier as built"),
  "C19-m3": ("caught", "negotiation:repeat-call-differs, negotiation:missing-entry-not-base-version, negotiation:wrong-result:first-call", "quick tier as built"),
- "C19-m4": ("caught", "e2e:findcontent-content-corrupted:common-v1", "quick tier as built"),
+ "C19-m4": ("caught", "framing:frame-changed-while-held, e2e:findcontent-content-corrupted:common-v1", "quick tier as built; the end-to-end detection depends on two transfers overlapping and missed once in a later re-run, so a held-frame monitor was added that catches it deterministically"),
  "C20-m3": ("caught after strengthening", "random-part-never-reaches-beyond-8-closest-covered", "every per-round demand still holds under this change; a distributional monitor now accumulates, over all rounds with covered candidates beyond the 8 closest, the probability under a uniform choice that none of them is ever picked, and reports when that falls below 1e-12."),
  "C20-m4": ("caught", "radius-report-lost:ping:0/1/2", "quick tier as built"),
  # round 3 (asked for: other files than the anchors, rare branches, numeric edges, time, concurrency, start-up/restart, cooperating edits)
@@ -85,6 +85,47 @@ R = {
  "C19-m6": ("caught after strengthening", "e2e:offer-error-instead-of-decline:receiver-without-free-slot (C19); verdict-count (C09, as built)", "C09 caught it as built; C19's directed group now offers a mix of held and wanted keys to a receiver without a free slot in every pairing and demands a well-formed decline."),
  "C20-m5": ("caught", "covered-omitted-with-at-most-4-candidates, close-covered-omitted", "quick tier as built"),
  "C20-m6": ("caught after strengthening", "radius-not-most-recent:earlier-ping-overwrote-later-pong:slow-record-refresh", "reports never coincided with a pending record refresh; a directed schedule now has the peer announce an ENR sequence ahead of the node's record, leave the record request unanswered, and send its PING before the delayed PONG to the node's own outstanding ping."),
+ # round 4 (asked for: JSON-RPC entry points, interactions between sub-protocols, scale / long time, dependency errors, partial failure, in-flight work whose input changes, side effects of logging / metrics, network-specific behaviour of shared code)
+ "C01-m7": ("caught after strengthening", "wedge:api", "no RPC method was ever called; an api segment now calls the sub-protocol's JSON-RPC methods (TraceOffer, Offer, FindContent, FindNodes, Ping, the recursive lookups, AddEnr(s), GetEnr, LookupEnr, Store, LocalContent, Gossip, DeleteEnr) against a peer that answers with hostile bytes."),
+ "C01-m8": ("caught after strengthening", "crash:github.com/zen-eth/shisui/portalwire.(*PortalProtocol).offer", "the nodes' tables never held 5..7 covered peers; every node of the environment now has 5 / 6 / 7 all-covering peers (added the way the AddEnr RPC adds them), so accepted content is gossiped to a partly filled target list. C20 caught it as built."),
+ "C02-m7": ("caught", "accept-header:proof-wrong-size, accept-header:hash-mismatch", "quick tier as built (same kind as C02-m2 / C02-m6)"),
+ "C02-m8": ("caught", "accept-body:withdrawals-unexpected, accept-body:legacy-body-for-empty-withdrawals-root", "quick tier as built"),
+ "C03-m7": ("caught", "accept-invalid:pre-merge:truncate-8B, accept-invalid:pre-merge:truncate-1B", "quick tier as built"),
+ "C03-m8": ("caught", "reject-honest:*:oracle-grow|known-era, accept-invalid:*:oracle-grow|slot-moved-to-another-era", "quick tier as built now (same change as C03-m3; the oracle-grow family added after round 2)"),
+ "C04-m7": ("caught", "get-error", "quick tier as built now (same change as C04-m3 / C04-m6)"),
+ "C04-m8": ("caught after strengthening", "get-wrong-bytes:api", "the store was only driven directly; put / overwrite / get now also go through the JSON-RPC entry points (Store, LocalContent) of a real protocol instance over the pebble store."),
+ "C05-m7": ("caught", "usage-under-reported", "quick tier as built"),
+ "C05-m8": ("caught after strengthening", "usage-under-reported", "concurrent puts always used fresh ids; eight goroutines now re-put the same four ids with long and short values in turn."),
+ "C06-m7": ("caught after strengthening", "inrange-path:gossip-target-out-of-range", "the gossip path now adds known peers again through the AddEnr RPC after their radius report."),
+ "C06-m8": ("caught after strengthening", "inrange-path:gossip-target-out-of-range", "six peers rarely gave more than four in range together with out-of-range ones among the closest; the gossip path now has ten. C20 caught it as built."),
+ "C07-m7": ("caught", "invariant:self-in-table", "quick tier as built now (same change as C07-m4)"),
+ "C07-m8": ("caught", "invariant:bucket-ip-limit", "quick tier as built"),
+ "C08-m7": ("caught after strengthening", "held-content-not-delivered:store-reports-smaller-radius", "the controllable store always reported the maximum radius; a directed case now lets it report radius 0 / 1 while holding items of every transfer kind."),
+ "C08-m8": ("caught", "held-content-not-delivered:utp:syn-before-accept", "quick tier as built (same change as C08-m2 / m4 / m6)"),
+ "C09-m7": ("caught", "accepted:in-flight:after-other-offer-finished", "quick tier as built (same change as C09-m2 / C09-m3)"),
+ "C09-m8": ("caught", "accepted-content-not-handed-over, bad-stream-not-discarded:one-less", "quick tier as built"),
+ "C10-m7": ("caught", "crash:github.com/zen-eth/shisui/portalwire.(*lookup).query", "quick tier as built (same change as C10-m3)"),
+ "C10-m8": ("caught after strengthening", "lookup-never-finishes:empty-table-with-initial-check", "every node of the harness had the table's initial check disabled; part C now asks node and content lookups of the first node of a network (no bootstrap nodes, initial check enabled)."),
+ "C11-m7": ("caught", "responder:record-with-unchecked-new-endpoint-offered", "quick tier as built now (same change as C11-m3)"),
+ "C11-m8": ("caught", "responder:self-record-missing-for-distance-0", "quick tier as built"),
+ "C12-m7": ("caught", "verify-accepts:signature:optimistic|full|finality", "quick tier as built"),
+ "C12-m8": ("caught", "verify-accepts:committee-learnt-for-another-period:*", "quick tier as built now (same change as C12-m3; provenance monitor added after round 2)"),
+ "C13-m7": ("caught after strengthening", "network-accepts-invalid:stored:account-node:in-a-batch", "the network path offered one item per element; elements now also carry an invalid item for a fresh key together with valid ones, in every position."),
+ "C13-m8": ("caught", "network-accepts-invalid:offered-onward:bytecode:key-already-held, accept-invalid:bytecode:raw-content-byte-flip, accept-invalid:bytecode:code-truncated", "quick tier as built"),
+ "C14-m7": ("caught after strengthening", "roundtrip-mismatch:ClientInfoAndCapabilitiesPayload:json", "the JSON form of the ping-extension payloads (what the portal_*Ping API hands over and reports) was not driven; it now round-trips through both converters for every payload type, empty client info included."),
+ "C14-m8": ("caught", "roundtrip-reject:CONTENT-union:enrs:empty-list, roundtrip-reject:CONTENT-union:content:empty-value", "quick tier as built now (same kind as C14-m5; CONTENT union group added after round 3)"),
+ "C15-m7": ("caught", "single-accept-inexact, accept-malformed:overflow", "quick tier as built"),
+ "C15-m8": ("caught after strengthening", "accept-malformed:short|trunc|overflow, split-differently", "decoder inputs never had more than a handful of items; streams of 63..1000 items, with and without malformed tails, are now decoder inputs."),
+ "C16-m7": ("caught after strengthening", "more-transfers-than-limit:outbound:slot-free-while-stream-unacknowledged", "every accepting peer ran a real uTP stack that acknowledges at once; a peer now accepts, acknowledges the SYN by hand and never a byte of data, and the slots are counted while the stream is written but unfinished."),
+ "C16-m8": ("caught after strengthening", "slot-not-returned:outbound:gossip:mixed-outcomes", "all gossip targets shared a version with the node; three covered targets without a common version are now among them."),
+ "C17-m7": ("caught", "usage-under-reported", "quick tier as built (same change as C05-m7)"),
+ "C17-m8": ("caught", "usage-under-reported", "quick tier as built (same change as C17-m3 / C17-m5)"),
+ "C18-m7": ("caught", "policy:track-ok:entry-removed, policy:track-ok:credit", "quick tier as built (same change as C18-m4)"),
+ "C18-m8": ("caught after strengthening", "policy:ping-reply:entry-removed, policy:ping-reply:credit", "the scripted transport always served a record when it announced a newer sequence; answered checks now also announce a higher sequence whose record request fails. The patch was regenerated on the current tree (the original no longer applied after fix a8968a6 touched the same function)."),
+ "C19-m7": ("caught", "e2e:offer-failed:older-record-in-table, e2e:findcontent-failed:older-record-in-table", "quick tier as built now (same change as C08-m3 / C19-m5)"),
+ "C19-m8": ("caught", "negotiation:wrong-version, negotiation:wrong-result:repeat-evicted, negotiation:wrong-result:first-call", "quick tier as built"),
+ "C20-m7": ("caught", "close-covered-omitted", "quick tier as built"),
+ "C20-m8": ("caught", "radius-report-lost:ping:0/1/2", "quick tier as built (same change as C20-m4)"),
  # round 1, decided later
  "C17-m1": ("caught after strengthening", "usage-under-reported", "crash points lay only between file-system operations; torn-write images (a prefix of the last write survives) were added."),
  "C17-m2": ("caught", "usage-under-reported", "quick tier as built (re-run)"),
